@@ -458,15 +458,22 @@ def world_body(plane=True, wsphere=None, mask=(1, 1), margin=0.0):
 def l1_models(thorough):
     """(label, kinds, geoms per body (margin, gap filled by variant))"""
     out = []
-    for mv, (mg, gp) in enumerate([(0.0, 0.0), (0.1, 0.0), (0.05, 0.025)]):
-        kw = dict(margin=mg, gap=gp)
+    # variant 3 ("uneven"): per-body margins 0.2x / 1.8x / 1x / 1x of the nominal one, so that the first two bodies still meet at
+    # the nominal threshold (sum of margins = 2*mg) while twice the smaller margin is far below it: a bound built from one
+    # body's margin only (broad/mid phase) would drop pairs that are inside the sum
+    for mv, (mg, gp, fac) in enumerate([(0.0, 0.0, None), (0.1, 0.0, None), (0.05, 0.025, None), (0.1, 0.0, (0.2, 1.8, 1.0, 1.0)),
+                                        (0.1, 0.0, (1.8, 0.2, 1.0, 1.0))]):
+        k = [dict(margin=mg * (fac[i] if fac else 1.0), gap=gp) for i in range(4)]
         shapes = {
-            "spheres": [[sph(**kw)], [sph(**kw)], [sph(**kw)], [sph(**kw)]],
-            "mixed": [[box(quat=Q30, **kw)], [sph(**kw)], [cap(quat=QGEN, **kw)], [box(h=(0.3, 0.3, 0.3), **kw)]],
-            "mesh": [[mesh(quat=Q30, **kw)], [box(**kw)], [sph(**kw)], [mesh(**kw)]],
-            "twogeom": [[sph(**kw), sph(pos=(1.0, 0, 0), **kw)], [box(**kw), sph(r=0.3, pos=(0, 1.0, 0), **kw)], [sph(**kw)], [cap(**kw), sph(pos=(0, -1.0, 0), **kw)]],
-            "sizes": [[sph(r=1.2, **kw)], [sph(r=0.05, **kw)], [cap(r=0.2, h=0.9, quat=QGEN, **kw)], [sph(**kw)]],
+            "spheres": [[sph(**k[0])], [sph(**k[1])], [sph(**k[2])], [sph(**k[3])]],
+            "mixed": [[box(quat=Q30, **k[0])], [sph(**k[1])], [cap(quat=QGEN, **k[2])], [box(h=(0.3, 0.3, 0.3), **k[3])]],
+            "mesh": [[mesh(quat=Q30, **k[0])], [box(**k[1])], [sph(**k[2])], [mesh(**k[3])]],
+            "twogeom": [[sph(**k[0]), sph(pos=(1.0, 0, 0), **k[0])], [box(**k[1]), sph(r=0.3, pos=(0, 1.0, 0), **k[1])], [sph(**k[2])],
+                        [cap(**k[3]), sph(pos=(0, -1.0, 0), **k[3])]],
+            "sizes": [[sph(r=1.2, **k[0])], [sph(r=0.05, **k[1])], [cap(r=0.2, h=0.9, quat=QGEN, **k[2])], [sph(**k[3])]],
         }
+        if fac:
+            shapes = {n: shapes[n] for n in ("twogeom", "mixed")}
         for name, gl in shapes.items():
             kindsets = [("F", "F", "F")]
             if name == "mixed":
@@ -484,7 +491,9 @@ def _l1_chunk(chunk):
     for label, kinds, gl, mg, gp, spacings in chunk:
         n = len(kinds)
         # the sphere set lives in one horizontal plane so that axis neighbours are exactly at the spacing; the others vary in height
-        zs = ([R - 0.05] * n) if " spheres " in label else [R - 0.05, R + 0.3, R + 0.8, R + 0.3][:n]
+        # (so does the two-geom set: its primary geoms then meet exactly at the threshold spacing along x while the root boxes of
+        # the per-body BVHs are separated by about the margin -- the arrangement in which a wrong mid-phase bound drops a pair)
+        zs = ([R - 0.05] * n) if (" spheres " in label or " twogeom " in label) else [R - 0.05, R + 0.3, R + 0.8, R + 0.3][:n]
         bodies = [world_body(plane=True, margin=mg)]
         for i in range(n):
             # static bodies sit at the centre cell of the nominal grid
